@@ -1110,11 +1110,13 @@ func (ex *Exec) concGo(fnv Value, args []Value) {
 	if !c.active() || c.mode == "final" {
 		panic(unsupported("go statement outside a thread in concurrent mode"))
 	}
-	g := ex.addEvent(&Event{Kind: "go"})
+	// what the goroutine receives is published (initialising writes) BEFORE the go event: the child is
+	// ordered after the go event and therefore after these writes
 	ex.publish(fnv)
 	for _, a := range args {
 		ex.publish(a)
 	}
+	g := ex.addEvent(&Event{Kind: "go"})
 	// register (or find) the child thread: keyed by parent thread, go-site and occurrence
 	name := fmt.Sprintf("%s/go@%s#%d", c.threads[c.curThread].Name, ex.curPos(), countKind(c.cur.Events, "go"))
 	for t := 1; t < len(c.threads); t++ {
@@ -2731,9 +2733,29 @@ func (ex *Exec) raceBySites(final *ThreadPath, finalPC []*Term) {
 			return
 		}
 	}
+	// spawnPath: a path of thread par that starts goroutine thread ch (nil if none)
+	spawnPath := func(par, ch int) *ThreadPath {
+		for _, p := range c.threads[par].Paths {
+			for _, e := range p.Events {
+				if e.Kind == "go" && e.Aux == fmt.Sprint(ch) {
+					return p
+				}
+			}
+		}
+		return nil
+	}
+	spawns := func(p *ThreadPath, ch int) bool {
+		for _, e := range p.Events {
+			if e.Kind == "go" && e.Aux == fmt.Sprint(ch) {
+				return true
+			}
+		}
+		return false
+	}
 	for t1 := 1; t1 <= nThreads; t1++ {
 		for t2 := t1 + 1; t2 <= nThreads; t2++ {
-			if c.threads[t1].Parent != 0 || c.threads[t2].Parent != 0 {
+			// goroutines started by the threads take part as well (one level: children of harness threads)
+			if (c.threads[t1].Parent != 0 && c.threads[c.threads[t1].Parent].Parent != 0) || (c.threads[t2].Parent != 0 && c.threads[c.threads[t2].Parent].Parent != 0) {
 				continue
 			}
 			k1s := make([]string, 0, len(sites[t1]))
@@ -2752,11 +2774,6 @@ func (ex *Exec) raceBySites(final *ThreadPath, finalPC []*Term) {
 					if a.ev.Loc != b.ev.Loc || (!isW(a.ev) && !isW(b.ev)) || (a.ev.Atomic && b.ev.Atomic) {
 						continue
 					}
-					res.RacePairs++
-					st.Reached++
-					st.Posed++
-					st.Nontrivial++
-					st.Pos[siteOf(a.ev.Pos)+" / "+siteOf(b.ev.Pos)] = true
 					combo := make([]*ThreadPath, nThreads)
 					for t := 1; t <= nThreads; t++ {
 						if c.threads[t].Parent == 0 && len(c.threads[t].Paths) > 0 {
@@ -2764,6 +2781,33 @@ func (ex *Exec) raceBySites(final *ThreadPath, finalPC []*Term) {
 						}
 					}
 					combo[t1-1], combo[t2-1] = a.path, b.path
+					// a racing goroutine needs a parent path that starts it
+					okCombo := true
+					for _, ch := range []int{t1, t2} {
+						par := c.threads[ch].Parent
+						if par == 0 {
+							continue
+						}
+						if par == t1 || par == t2 {
+							if !spawns(combo[par-1], ch) {
+								okCombo = false
+							}
+							continue
+						}
+						if sp := spawnPath(par, ch); sp != nil {
+							combo[par-1] = sp
+						} else {
+							okCombo = false
+						}
+					}
+					if !okCombo {
+						continue
+					}
+					res.RacePairs++
+					st.Reached++
+					st.Posed++
+					st.Nontrivial++
+					st.Pos[siteOf(a.ev.Pos)+" / "+siteOf(b.ev.Pos)] = true
 					res.ConcCombos++
 					ex.raceCombo(combo, final, a.ev, b.ev, st)
 				}
@@ -2802,6 +2846,19 @@ func (ex *Exec) raceCombo(combo []*ThreadPath, final *ThreadPath, a, b *Event, s
 		}
 		for i := 1; i < len(p.Events); i++ {
 			fmt.Fprintf(&sb, "(assert %s)\n", lt(p.Events[i-1], p.Events[i]))
+		}
+	}
+	// a goroutine starts after the go statement that creates it
+	for ti, p := range combo {
+		if p == nil || len(p.Events) == 0 || c.threads[ti+1].Parent == 0 {
+			continue
+		}
+		if pp := combo[c.threads[ti+1].Parent-1]; pp != nil {
+			for _, e := range pp.Events {
+				if e.Kind == "go" && e.Aux == fmt.Sprint(ti+1) {
+					fmt.Fprintf(&sb, "(assert %s)\n", lt(e, p.Events[0]))
+				}
+			}
 		}
 	}
 	// mutual exclusion of critical sections
